@@ -226,6 +226,10 @@ def _get_common_type_dims(arr_seq: Sequence[ArrayLike | None]) -> tuple[np.dtype
                     "All elements must have compatible dtypes. Cannot "
                     f"cast {element_dtype} to {dtype}."
                 )
+        if dtype.kind == "u":
+            # Python ints >= 2**63 are discovered as C "unsigned long long", which is not the
+            # canonical uint64 on every platform and is not recognised by zarr
+            dtype = np.dtype(f"uint{8 * dtype.itemsize}")
 
     if dtype is None or ndim is None:
         warnings.warn(
